@@ -118,9 +118,12 @@ def flagsInUninterpreted : List Nat := [
 /-- process-local state touched by functions reachable from VMExecutor.Execute (run-time-assigned package variables, side stores in struct fields of core/service/executor/middleware types, context entries), each with the reason it cannot make two replicas differ — or the recorded finding it belongs to -/
 def processLocalAccounted : List Nat := [
   1586386065276082,  -- global src/common/constant_economy.go GetBlocksPerEpoch [common.epochBlocks] — memoised constant
+  556501283414633,  -- gwrite src/common/constant_economy.go GetBlocksPerEpoch [common.epochBlocks] — memoisation of a constant (epoch / castingInterval): idempotent write
   3959112389092664,  -- global src/common/constant_economy.go GetCastingInterval [common.Genesis] — sub-chain configuration read once from genesis.json at start-up; nil on the main chain
   1146294235989518,  -- global src/common/constant_economy.go GetRefundBlocks [common.refundBlocks] — memoised constant
+  3743961262164148,  -- gwrite src/common/constant_economy.go GetRefundBlocks [common.refundBlocks] — idem
   3836124506624883,  -- global src/common/constant_economy.go GetRewardBlocks [common.rewardBlocks] — memoised constant rewardTime / castingInterval
+  391520268361102,  -- gwrite src/common/constant_economy.go GetRewardBlocks [common.rewardBlocks] — idem
   2931297799957989,  -- global src/common/height.go GetBlockHeight [common.localChainInfo] — process-wide chain height behind every IsProposalNNN: the recorded known finding (Props/C01B)
   3209629353064584,  -- global src/common/version.go ChainId [common.LocalChainConfig] — fork table / chain config fixed at start-up; together with localChainInfo it yields the flags (known finding flags-from-process-chain-height)
   4151770717763579,  -- global src/common/version.go GetChainId [common.Genesis] — sub-chain configuration read once from genesis.json at start-up; nil on the main chain
@@ -199,6 +202,7 @@ def processLocalAccounted : List Nat := [
   1821241674178939,  -- global src/service/transaction_pool.go GetTransactionPool [service.txpoolInstance] — singleton handle; ProcessFee touches only the AccountDB passed in
   4382738886316098,  -- global src/storage/account/accountdb_eth.go AccountDB.GetERC20Binding [account.rpgContractAddress] — cache of the RPG ERC20 binding, a genesis-time constant of the state (AddERC20Binding is only called by genesis); re-read while zero
   1544806820199954,  -- global src/storage/account/accountdb_eth.go AccountDB.loadContractCache [account.rpgContractAddress] — cache of the RPG ERC20 binding, a genesis-time constant of the state (AddERC20Binding is only called by genesis); re-read while zero
+  3357059105603057,  -- gwrite src/storage/account/accountdb_eth.go AccountDB.loadContractCache [account.rpgContractAddress] — cache fill from the state (genesis-time constant binding); the only writes to package-level state on the execution path
   2182657831887046  -- global src/vm/interpreter.go NewEVMInterpreter [common.LocalChainConfig] — fork table / chain config fixed at start-up; together with localChainInfo it yields the flags (known finding flags-from-process-chain-height)
 ]
 
@@ -228,7 +232,7 @@ theorem flag_reads_pinned :
 
 /-- every process-local state access found on the execution path is one of the classified ones -/
 theorem process_local_reads_pinned :
-    ((sites.filter (fun s => s.kind == "global" || s.kind == "store" || s.kind == "ctx")).map (·.key)).all
+    ((sites.filter (fun s => s.kind == "global" || s.kind == "store" || s.kind == "ctx" || s.kind == "gwrite")).map (·.key)).all
       (fun k => processLocalAccounted.contains k) = true := by
   decide
 
